@@ -27,7 +27,8 @@ impl TransportState {
             return Err(StateProblem::HandshakeNotFinished.into());
         }
 
-        let dh_len = handshake.dh_len();
+        // The remote static key is a public key, which can be longer than a DH output (P-256).
+        let dh_len = handshake.s.pub_len();
         let HandshakeState { cipherstates, params, rs, initiator, .. } = handshake;
         let pattern = params.handshake.pattern;
 
